@@ -150,8 +150,9 @@ class Bucket:
         """
         Generate a new id.
         """
-        rand_node_id_bin = format(random.randint(0, 2 ** (160 - len(self.prefix_id))), "0160b")
-        return binascii.unhexlify(format(int(rand_node_id_bin, 2), "040X"))
+        free_bits = 160 - len(self.prefix_id)
+        rand_bits = format(random.getrandbits(free_bits), f"0{free_bits}b") if free_bits else ""
+        return binascii.unhexlify(format(int(self.prefix_id + rand_bits, 2), "040X"))
 
     def owns(self, node_id: bytes) -> bool:
         """
